@@ -784,29 +784,18 @@ func (w *world45) timeoutCalls() {
 	}
 }
 
-// dbPool45 holds the node databases (LocalNode only keeps its sequence number there).
-// Opening a goleveldb memory database costs ~15 ms (4 MiB write buffer), so they are
-// opened once per process, outside any bubble, and reused: node ids differ from plan
-// to plan, so a run never sees another run's entries.
-var dbPool45 []*enode.DB
-
-func pooledDB(i int) *enode.DB {
-	for len(dbPool45) <= i {
-		db, err := enode.OpenDB("")
-		if err != nil {
-			simcore.Harnessf("enode db: %v", err)
-		}
-		dbPool45 = append(dbPool45, db)
-	}
-	return dbPool45[i]
-}
-
 func newNode45(idx int, keyHex string, clock *mclock.Simulated) *node45 {
 	key, err := crypto.ToECDSA(unhex(keyHex))
 	if err != nil {
 		simcore.Harnessf("bad key in plan")
 	}
-	db := dbPool45[idx]
+	// a fresh memory database per run, created inside the bubble (a database shared with goroutines
+	// outside the bubble breaks as soon as goleveldb rotates its memtable: its compaction goroutine then
+	// acknowledges on a channel made inside the bubble)
+	db, err := enode.VerifOpenSmallMemDB()
+	if err != nil {
+		simcore.Harnessf("enode db: %v", err)
+	}
 	ln := enode.NewLocalNode(db, key)
 	ip := net.IP{198, 51, 100, byte(10 + idx)}
 	ln.SetStaticIP(ip)
@@ -822,13 +811,18 @@ func Run45(t *testing.T, pl any) *simcore.Result {
 	res := simcore.NewResult()
 	cryptotest.SetGlobalRandom(t, p.CryptoSeed)
 	w := &world45{t: t, res: res, clock: &mclock.Simulated{}, log: simcore.NewHash()}
-	pooledDB(len(p.Keys) - 1)
 	// the bubble only provides a fixed virtual wall clock (LocalNode sequence numbers
 	// start from time.Now) — the run itself is single-threaded.
 	dl, pv := runBubble(t, func() {
 		for i, k := range p.Keys {
 			w.nodes = append(w.nodes, newNode45(i, k, w.clock))
 		}
+		defer func() {
+			for _, n := range w.nodes {
+				n.db.Close()
+			}
+			time.Sleep(2 * time.Second) // goleveldb's pool drainer lingers up to 1 s after Close
+		}()
 		// everybody knows everybody's first record, except that the highest node is
 		// unknown to node 0 (handshake must then carry the record)
 		for _, a := range w.nodes {
